@@ -14,7 +14,9 @@ import tlc
 
 RANK_STR = [{1: "A", 2: "a", 3: "b", 4: "é", 5: "中", 6: "\U0001F600"},
             {1: "-", 2: "B", 3: "_", 4: "\x7f", 5: "Ā", 6: "\U00010000"}]
-RANK_NAME = [{1: "a", 2: "b"}, {1: "A", 2: "z"}, {1: "x-", 2: "x?"}]
+# the second mapping puts characters below "/" after a shared prefix: ns "!" vs ns "!-" (a "ns/name" string comparison
+# would order them the other way round)
+RANK_NAME = [{1: "a", 2: "b"}, {1: "!", 2: "-"}, {1: "A", 2: "z"}, {1: "x-", 2: "x?"}]
 
 
 class Conc:
@@ -142,7 +144,7 @@ def run(chk):
     fams = {}
     for r in rows:
         fams.setdefault(r["fam"], {})[r["i"]] = r
-    nvar = 2 if chk.tier == "quick" else 3
+    nvar = 2 if chk.tier == "quick" else 4
     for fam, byi in sorted(fams.items()):
         n = len(byi)
         els = [byi[i + 1]["el"] for i in range(n)]
